@@ -47,6 +47,12 @@ def mk_target(ys, index=None):
     return s
 
 
+def pregroup_of(case):
+    """a previous discretization of a NON-ordinal feature handed over as a GroupedList with groups"""
+    from AutoCarver.discretizers import GroupedList
+    return GroupedList({dec(k): decs(vs) for k, vs in case["pregroup"]})
+
+
 def build_carver(case, **extra):
     from AutoCarver import BinaryCarver, ContinuousCarver
     kw = dict(min_freq=case["min_freq"], max_n_mod=case["max_n_mod"], min_freq_mod=case["min_freq_mod"],
@@ -56,6 +62,8 @@ def build_carver(case, **extra):
         kw["quantitative_features"] = [F]
     elif ft == "categ":
         kw["qualitative_features"] = [F]
+        if case.get("pregroup"):
+            kw["values_orders"] = {F: pregroup_of(case)}
     else:
         kw["ordinal_features"] = [F]
         kw["values_orders"] = {F: decs(case["order"])}
@@ -74,6 +82,8 @@ def build_discretizer(case):
     if ft == "quant":
         return Discretizer(quantitative_features=[F], qualitative_features=[], **kw)
     if ft == "categ":
+        if case.get("pregroup"):
+            kw["values_orders"] = {F: pregroup_of(case)}
         return Discretizer(quantitative_features=[], qualitative_features=[F], **kw)
     return Discretizer(quantitative_features=[], qualitative_features=[], ordinal_features=[F],
                        values_orders={F: decs(case["order"])}, **kw)
